@@ -174,12 +174,35 @@ func genC15(r *rand.Rand, run int, _ string) *Scenario {
 	case 0: // sequential, fault-free
 		var ops []IndexOp
 
-		n := 1 + r.IntN(3)
+		// bookkeeping over several calls: keys are written back, labelled again (under one or several
+		// labels and names), a cache is registered late, and every InvalidateByLabels in between is judged
+		late := -1
+		if chance(r, 0.4) {
+			ix.Caches = append(ix.Caches, IndexCache{Name: pick(r, "late", names[0]), Backend: pick(r, "sharded", "syncmap"), Late: true, Keys: []int{0, nk - 1}})
+			late = len(ix.Caches) - 1
+		}
+
+		n := 1 + r.IntN(4)
 		for i := 0; i < n; i++ {
 			ops = append(ops, inv())
 
-			if chance(r, 0.3) {
-				ops = append(ops, IndexOp{Kind: "addLabels", Name: pick(r, names...), Key: r.IntN(nk), Labels: []string{pick(r, labels...)}})
+			for j := r.IntN(4); j > 0; j-- {
+				switch r.IntN(5) {
+				case 0, 1:
+					op := IndexOp{Kind: "addLabels", Name: pick(r, append(names, "late")...), Key: r.IntN(nk)}
+					for l := 1 + r.IntN(2); l > 0; l-- {
+						op.Labels = append(op.Labels, pick(r, labels...))
+					}
+
+					ops = append(ops, op)
+				case 2, 3:
+					ops = append(ops, IndexOp{Kind: "write", Cache: r.IntN(len(ix.Caches)), Key: r.IntN(nk)})
+				default:
+					if late >= 0 {
+						ops = append(ops, IndexOp{Kind: "addCache", Cache: late})
+						late = -1
+					}
+				}
 			}
 		}
 
